@@ -292,3 +292,33 @@ def run(ck):
     c02.r1(ck, rule="C20-R2")
     r3(ck)
     r4(ck)
+    r6_every_trial_at_the_limit_is_the_recorded_one(ck)
+
+
+def r6_every_trial_at_the_limit_is_the_recorded_one(ck, rule="C20-R6"):
+    """`FilePatch::apply(.., fuzz)` tries a file patch with everything the limit allows.  Raising the limit can only turn failures into
+    successes for the application that counts - but any *other* application at the limit (a probe: "would the reverse apply?", "is it
+    applied already?") can come out differently with a higher limit, and whatever is decided on it changes an outcome that used to be
+    fine.  Outside the failure diagnostics (presentation only, C14) every call of FilePatch::apply is the application whose report is
+    recorded in the PatchStatus of that file patch."""
+    prog = ck.prog
+    n = 0
+    for fn in sorted(prog.fns.values(), key=lambda f: f.id):
+        if fn.crate != "rapidquilt" or "::diagnostics::" in fn.id or "/tests/" in fn.file:
+            continue
+        calls = [(bb, t) for bb, t in fn.calls() if (callee_of(t).get("rpath") or "").endswith("FilePatch::<'a, &'a [u8]>::apply") and not fn.blocks[bb]["cleanup"]]
+        if not calls:
+            continue
+        recorded = set()
+        for bb, idx, st in fn.stmts():
+            if st["k"] == "assign" and st["rv"]["k"] == "agg" and (st["rv"].get("adt") or "").endswith("PatchStatus") and "report" in (st["rv"].get("fields") or []):
+                op = st["rv"]["ops"][st["rv"]["fields"].index("report")]
+                recorded |= set(df.operand_trace(fn, op))
+        for bb, t in calls:
+            n += 1
+            ok = "p" not in t["dest"] and t["dest"]["l"] in recorded
+            ck.require(ok, rule, "FilePatch::apply in %s is the recorded application" % fn.id.split("::")[-1],
+                       "a file patch is applied at the fuzz limit and the report is not the one recorded for it: what is decided on such a probe "
+                       "(skip, choose, warn) can change when the limit is raised although the push used to succeed", fn.where(t),
+                       ok_detail="its report goes into PatchStatus.report")
+    ck.floor(rule, "applications of a file patch outside the diagnostics", n, 1)
